@@ -317,7 +317,7 @@ def T(name, clauses=None, **kw):
 
 UNIT = {
     "name": "types",
-    "properties": ["C29", "C17", "C15"],
+    "properties": ["C29", "C17", "C15", "C14"],
     "parts": [
         PRELUDE,
         dict(file="crates/apollo-compiler/src/ast/mod.rs", kind="enum", name="Type", props=["C29"]),
@@ -344,7 +344,7 @@ UNIT = {
                        "r == is_valid_implementation_field_type_spec(schema, *impl_field_type, *interface_field_type)"),
                       ("decreases", None, "interface_field_type")],
              hints=[("body_start", None, "proof { reveal_with_fuel(is_valid_implementation_field_type_spec, 3); reveal_with_fuel(size, 3); }")],
-             props=["C29", "C15"]),
+             props=["C29", "C15", "C14"]),
         dict(file="crates/apollo-compiler/src/validation/variable.rs", kind="fn", name="validate_variable_usage",
              rewrites=[("var_defs.iter().find(|v| v.name == *var_name)", "find_variable_definition(var_defs, var_name)", 1)],
              clauses=[("ensures", "error_iff_a_defined_variable_is_used_where_it_is_not_allowed", "r is Err <==> usage_violation(&*var_usage.0, var_defs@, &*argument.0)"),
@@ -381,7 +381,7 @@ UNIT = {
                      "        assert(reports(e1, n0) =~= reports(e0, n0).push(report_of(e1.last())));\n"
                      "        assert((base + prev).push(report_of(e1.last())) =~= base + prev.push(report_of(e1.last())));\n"
                      "    } else { assert(e1 =~= e0); } }")],
-             props=["C29", "C15"]),
+             props=["C29", "C15", "C14"]),
         LEMMAS,
     ],
 }
